@@ -1204,10 +1204,12 @@ gen(uint64_t seed, const std::string& tier, long idx)
                                  "interfile_img_flip", "interfile_img_lines", "interfile_img_datasize", "keyparser", "registry_round_trip",
                                  "registry_values", "registry_index", "interfile_pd_index", "interfile_img_index",
                                  "interfile_lm_eof", "interfile_lm_flip", "interfile_lm_lines", "interfile_lm_index",
-                                 "multi_eof", "multi_flip", "multi_lines", "multi_index" };
+                                 "multi_eof", "multi_flip", "multi_lines", "multi_index", "registry_values", "registry_values" };
   Op o;
-  o.kind = kinds[idx % 28];
-  o.a.push_back(idx / 28 + (long)r.below(3) * 1000003L); // class index walks through all registered classes
+  o.kind = kinds[idx % 30];
+  // class index walks through all registered classes (the three registry_values slots of a block of 30 take three classes)
+  const long walk = o.kind == std::string("registry_values") ? idx / 30 * 3 + (idx % 30 == 16 ? 0 : (idx % 30 == 28 ? 1 : 2)) : idx / 30;
+  o.a.push_back(walk + (long)r.below(3) * 1000003L);
   o.a.push_back((long)r.below(100000));
   p.ops.push_back(o);
   (void)tier;
